@@ -15,7 +15,12 @@ pub fn last_panic_loc() -> String {
 mod ops;
 mod opts;
 mod tree;
+// component op modules: add `mod ops_<name>;` here and its dispatch function to COMPONENTS
+// (signature: fn(op: &str, args: &[String]) -> Option<String>; None = not mine)
 
+pub const COMPONENTS: &[fn(&str, &[String]) -> Option<String>] = &[];
+
+#[allow(dead_code)]
 pub fn unhex(s: &str) -> Vec<u8> {
     if s == "-" {
         return vec![];
